@@ -36,6 +36,31 @@ type Profile struct {
 	DropKinds                   []string // op kinds removed (input masking of an open finding)
 }
 
+// fineFocus narrows, in half of the fine-grained runs, the statement-level scheduling points to
+// the file in which the property's mechanism lives (any file in the other half).
+func fineFocus(t *rapid.T, profile string) string {
+	focus := map[string][]string{
+		"spend": {"command/lock.go", "command/commander.go"},
+		"chain": {"batching/batcher.go", "job/jobs.go", "command/commander.go"},
+		"durab": {"batching/batcher.go", "job/jobs.go", "command/commander.go"},
+		"idem-": {"command/reference.go", "command/commander.go"},
+		"idem":  {"command/reference.go", "command/commander.go"},
+		"ref":   {"command/reference.go", "command/commander.go"},
+		"ref-n": {"command/reference.go", "command/commander.go"},
+		"cache": {"command/compiler.go", "command/commander.go"},
+		"rever": {"command/commander.go", "command/lock.go"},
+	}
+	k := profile
+	if len(k) > 5 {
+		k = k[:5]
+	}
+	f, ok := focus[k]
+	if !ok || !pct(t, 50, "fineFocus") {
+		return ""
+	}
+	return rapid.SampledFrom(f).Draw(t, "fineFile")
+}
+
 var allTpls = []int{tplLit, tplVar, tplMeta, tplOrdered, tplMax, tplOverdraftBounded, tplOverdraftUnbounded, tplAll, tplBalance, tplWorld, tplSplit, tplSetAccountMeta, tplTwoSends}
 
 var profiles = map[string]Profile{
@@ -271,7 +296,7 @@ func GenInput(t *rapid.T, p *Profile) *Input {
 	}
 	cfg.MaskSites = p.MaskSites
 	if len(fineSiteList) > 0 {
-		cfg.FineSites = genFineSites(t, "")
+		cfg.FineSites = genFineSites(t, fineFocus(t, p.Name))
 	}
 	bigPct := 20
 	if p.Name == "audit" {
@@ -364,6 +389,11 @@ func GenInput(t *rapid.T, p *Profile) *Input {
 	// schedule
 	ppct := rapid.SampledFrom([]int{0, 10, 30, 60}).Draw(t, "preemptPct")
 	nch := rapid.IntRange(0, 120).Draw(t, "nchoices")
+	if len(cfg.FineSites) > 0 {
+		// statement-level points only matter when the scheduler switches tasks at them
+		ppct = rapid.SampledFrom([]int{20, 40, 70}).Draw(t, "finePreemptPct")
+		nch = rapid.IntRange(60, 400).Draw(t, "fineNchoices")
+	}
 	if ppct > 0 {
 		for i := 0; i < nch; i++ {
 			c := 0
@@ -372,6 +402,10 @@ func GenInput(t *rapid.T, p *Profile) *Input {
 			}
 			in.Choices = append(in.Choices, c)
 		}
+	}
+	if rapid.Bool().Draw(t, "hasTail") {
+		in.TailSeed = rapid.Uint64().Draw(t, "tailSeed")
+		in.TailPct = rapid.SampledFrom([]int{5, 20, 50}).Draw(t, "tailPct")
 	}
 	return in
 }
